@@ -191,8 +191,8 @@ class Scalar (α : Type) where
   nan : α
   /-- the decimal literal `m·10^(-k)` as `float("…")` reads it -/
   ofDec : Nat → Nat → α
-  /-- `1e300` -/
-  big : α
+  /-- `float('inf')` -/
+  inf : α
   /-- `math.exp` (OverflowError when the result is not representable) -/
   exp : α → Except Err α := fun _ => .error "err:unsupported"
   /-- `math.log` on a positive argument (`Log` tests `val > 0` itself) -/
@@ -248,7 +248,7 @@ instance : Scalar Float where
   isNaN := Float.isNaN
   nan := 0.0 / 0.0
   ofDec := fun m k => Float.ofScientific m true k
-  big := Float.ofScientific 1 false 300
+  inf := 1.0 / 0.0
   exp := floatExp
   log := fun x => .ok x.log
   cos := floatTrig Float.cos
@@ -327,9 +327,9 @@ def litVal {α : Type} [Scalar α] : Lit → α
   | .fin m k e =>
     if e ≤ k then ofDec m (k - e)
     else if m = 0 then ofDec 0 0
-    else if e - k > 400 then div one zero
+    else if e - k > 400 then inf
     else ofDec (m * 10 ^ (e - k)) 0
-  | .inf => div one zero
+  | .inf => inf
   | .nan => nan
 
 /-! ## The track: coordinates, timestamps (as epoch seconds) and the feature table -/
@@ -465,9 +465,6 @@ def diff2Mid : List α → List α
   | _ => []
 def diff2 (n : Nat) (c : List α) : List α :=
   if n ≤ 1 then [nan] else nan :: (diff2Mid c ++ [nan])
-/-- Rectifier: `-x * (x < 0) + x * (x > 0)` -/
-def rect (x : α) : α := add (mul (neg x) (ofBool (lt x zero))) (mul x (ofBool (lt zero x)))
-
 def logName : Str := ['L', 'O', 'G']
 def isVoidFn (f : Str) : Bool :=
   f = ['I'] || f = ['D'] || f = ['D', '2'] || f = ['A', 'B', 'S'] || f = ['S', 'Q', 'R', 'T']
@@ -482,9 +479,10 @@ def logAt (x : α) : Except Err α := if lt zero x then log x else .ok zero
 def diode (x : α) : α := mul x (ofBool (lt zero x))
 /-- Sign: `1 * (x >= 0) - 1 * (x < 0)` -/
 def sign (x : α) : α := sub (ofBool (le zero x)) (ofBool (lt x zero))
+/-- the void functions; `ABS` (Rectifier) is `abs` since fix 8378be5 (it used to be `-x*(x<0) + x*(x>0)`, NaN at ±inf) -/
 def voidFn (f : Str) (n : Nat) (c : List α) : Except Err (List α) :=
   if f = ['I'] then .ok (integ c) else if f = ['D'] then .ok (diff c) else if f = ['D', '2'] then .ok (diff2 n c)
-  else if f = ['A', 'B', 'S'] then .ok (c.map rect) else if f = ['S', 'Q', 'R', 'T'] then mapM' sqrt c
+  else if f = ['A', 'B', 'S'] then .ok (c.map abs) else if f = ['S', 'Q', 'R', 'T'] then mapM' sqrt c
   else if f = logName then mapM' logAt c
   else if f = ['D', 'I', 'O', 'D', 'E'] then .ok (c.map diode) else if f = ['S', 'I', 'G', 'N'] then .ok (c.map sign)
   else if f = ['E', 'X', 'P'] then mapM' exp c
@@ -498,14 +496,16 @@ def sumL (c : List α) : α := (skipNaN c).foldl add zero
 def avgL (c : List α) : Except Err α :=
   let v := skipNaN c
   if v.isEmpty then .error "err:zerodiv" else .ok (div (v.foldl add zero) (ofNat v.length))
-def minL (c : List α) : α := c.foldl (fun m v => if lt v m then v else m) big
-def maxL (c : List α) : α := c.foldl (fun m v => if lt m v then v else m) (neg big)
-/-- the loops of Argmin / Argmax: `if val < minimum: minimum = val; idmin = i` from `minimum = 1e300`, `idmin = 0` -/
+/-- Min / Max: `minimum = float('inf')`, `if val < minimum: minimum = val` (fix 68863c7: the start value used to be
+    `1e300`); NaN never compares below, so it is skipped; on an empty or all-NaN feature the start value comes back -/
+def minL (c : List α) : α := c.foldl (fun m v => if lt v m then v else m) inf
+def maxL (c : List α) : α := c.foldl (fun m v => if lt m v then v else m) (neg inf)
+/-- the loops of Argmin / Argmax: `if val < minimum: minimum = val; idmin = i` from `minimum = float('inf')`, `idmin = 0` -/
 def argLoop (better : α → α → Bool) : List α → Nat → α → Nat → Nat
   | [], _, _, best => best
   | v :: vs, i, cur, best => if better v cur then argLoop better vs (i + 1) v i else argLoop better vs (i + 1) cur best
-def argminL (c : List α) : α := ofNat (argLoop (fun v m => lt v m) c 0 big 0)
-def argmaxL (c : List α) : α := ofNat (argLoop (fun v m => lt m v) c 0 (neg big) 0)
+def argminL (c : List α) : α := ofNat (argLoop (fun v m => lt v m) c 0 inf 0)
+def argmaxL (c : List α) : α := ofNat (argLoop (fun v m => lt m v) c 0 (neg inf) 0)
 /-- order of `np.argsort`: NaN last -/
 def leNaNLast (a b : α) : Bool := if isNaN b then true else if isNaN a then false else !(lt b a)
 def sortL (c : List α) : List α := c.mergeSort leNaNLast
@@ -913,8 +913,9 @@ def operateX (ext : List (Str × α)) (tr : Tr α) (expr : Str) : Res α (Option
   let r := evaluateX ext tr expr
   (r.1, purge r.2)
 
-/-- the characters `Track.__getitem__` looks for to decide that a string is an expression (braces are not among them) -/
-def exprChars : List Char := ['+', '-', '/', '*', '^', '>', '<', '(', ')', '=', '\'']
+/-- the characters `Track.__getitem__` looks for to decide that a string is an expression (the opening brace of a
+    function call among them since fix 396f8f9) -/
+def exprChars : List Char := ['+', '-', '/', '*', '^', '>', '<', '(', ')', '=', '\'', '{']
 
 /-- `Track.__getitem__(n)` with a string: `n.strip()`, then `operate(n)` when `n` contains one of `exprChars`,
     else `getAnalyticalFeature(n)` -/
